@@ -26,36 +26,89 @@ def check_can_write(chk) -> None:
     c = spec("constants.json")["C10"]
     fi = repo.func(M, "can_write_pdb")
     chk.note_function(fi)
-    tests = [s for s in ast.walk(fi.node) if isinstance(s, ast.If) and "not in df.columns" in norm(s.test)]
+    from sa import paths as PT
+    from sa.defuse import Inliner
+
+    inl = Inliner(fi.node)
+    fmx = FlowMap(fi.node)
     want = {
         "id": ("pd.to_numeric(df['id'], errors='coerce').max()", c["max_serial"]),
         "auth_asym_id": ("df['auth_asym_id'].dropna().astype(str).str.len().max()", c["max_chain_len"]),
         "auth_seq_id": ("pd.to_numeric(df['auth_seq_id'], errors='coerce').max()", c["max_resseq"]),
     }
-    seen = {}
-    for t in tests:
-        if not (isinstance(t.test, ast.BoolOp) and isinstance(t.test.op, ast.Or) and len(t.test.values) == 2):
+
+    def atom_of_test(node: ast.AST):
+        """('missing', col) | ('over', col, op, limit) | ('format', name) | ('empty',) | None"""
+        e = inl.inline(node, fmx.stmt_of(node), stop=("df", "format_type"))
+        t = norm(e)
+        m = astq.match(e, "C_ not in df.columns")
+        if m and isinstance(m["C_"], ast.Constant):
+            return ("missing", m["C_"].value, True)
+        m = astq.match(e, "C_ in df.columns")
+        if m and isinstance(m["C_"], ast.Constant):
+            return ("missing", m["C_"].value, False)
+        if isinstance(e, ast.Compare) and len(e.ops) == 1:
+            lim = Folder(repo, M).try_fold(e.comparators[0])
+            for col, (q, _) in want.items():
+                if norm(e.left) == q and lim is not None:
+                    return ("over", col, type(e.ops[0]).__name__, lim)
+            if norm(e.left) == "format_type" and isinstance(e.comparators[0], ast.Constant):
+                return ("format", e.comparators[0].value, isinstance(e.ops[0], ast.Eq))
+            if isinstance(lim, (int, float)) and not isinstance(lim, bool):
+                return ("other", t)
+        if t in ("df.empty", "len(df) == 0"):
+            return ("empty",)
+        return None
+
+    results = []
+    unknown = []
+    for events, exit_ in PT.paths(fi.node.body):
+        if exit_ != "return":
+            unknown.append("a path falls off the end")
             continue
-        m = astq.match(t.test.values[0], "C_ not in df.columns")
-        cmp_ = t.test.values[1]
-        if m and isinstance(m["C_"], ast.Constant) and isinstance(cmp_, ast.Compare) and len(cmp_.ops) == 1:
-            col = m["C_"].value
-            seen[col] = (norm(cmp_.left), type(cmp_.ops[0]).__name__, Folder(repo, M).try_fold(cmp_.comparators[0]), [norm(s) for s in t.body])
-    for col, (q, lim) in want.items():
-        g = seen.get(col)
-        ok = g is not None and g[0] == q and g[1] == "Gt" and g[2] == lim and g[3] == ["return False"]
-        chk.expect(
-            ok,
-            "fit-test",
-            fi.where,
-            f"a table does not fit when max of {col} exceeds {lim}",
-            f"the fit test for {col} is not `{q} > {lim} -> False`: a table that violates the PDB limit is reported as fitting (and then returned unchanged by fit_to_pdb)",
-            K(fi, f"limit:{col}"),
-            expected=[q, "Gt", lim],
-            found=list(g[:3]) if g else None,
-        )
-    rets = [norm(r) for r in ast.walk(fi.node) if isinstance(r, ast.Return)]
-    chk.expect(rets.count("return True") == 3 and rets.count("return False") == 4, "fit-test", fi.where, "PDB-format and empty tables fit; unknown formats do not", "the set of return paths of can_write_pdb changed", K(fi, "returns"), found=rets)
+        ret = events[-1][1].value
+        rv = ret.value if isinstance(ret, ast.Constant) else None
+        dec = []
+        for ev in events:
+            if ev[0] == "test":
+                a = atom_of_test(ev[3])
+                if a is None:
+                    unknown.append(ev[1])
+                dec.append((a, ev[2]))
+        results.append((dec, rv, events[-1][1]))
+    if unknown:
+        chk.error("fit-test", fi.where, f"conditions of can_write_pdb not understood: {sorted(set(unknown))[:3]}")
+    else:
+        def fmt_of(dec):
+            for a, v in dec:
+                if a and a[0] == "format" and (v == a[2]):
+                    return a[1]
+            return None
+
+        cif = [(d, rv, st) for d, rv, st in results if fmt_of(d) == "mmCIF" and not any(a and a[0] == "empty" and v for a, v in d)]
+        for col, (q, lim) in want.items():
+            # some path must test the limit with `>` and the pinned constant
+            overs = [(a, v) for d, rv, st in cif for a, v in d if a and a[0] == "over" and a[1] == col]
+            ops = {(a[2], a[3]) for a, v in overs}
+            if not overs:
+                chk.violation("fit-test", fi.where, f"no path of can_write_pdb compares the maximum of {col} with its limit: a table that violates the PDB limit is reported as fitting (and then returned unchanged by fit_to_pdb)", K(fi, f"limit:{col}"))
+                continue
+            chk.expect(ops == {("Gt", lim)}, "fit-test", fi.where, f"a table does not fit when max of {col} exceeds {lim}", f"the fit test for {col} compares with {sorted(ops)}, the PDB limit is `> {lim}`: a table that violates the limit is reported as fitting (and then returned unchanged by fit_to_pdb)", K(fi, f"limit:{col}"), expected=["Gt", lim], found=sorted(ops))
+        bad_paths = []
+        for d, rv, st in cif:
+            fails = any(a and ((a[0] == "missing" and v == a[2] and a[1] in want) or (a[0] == "over" and v)) for a, v in d)
+            if fails and rv is not False:
+                bad_paths.append((st, "a table with a missing column or a value over the limit is reported as fitting"))
+            if not fails and rv is not True:
+                covered = {a[1] for a, v in d if a and a[0] == "over"}
+                if covered == set(want):
+                    bad_paths.append((st, "a table that passes all three limits is reported as not fitting"))
+        for st, msg in bad_paths[:2]:
+            chk.violation("fit-test", fi.site(st), msg, K(fi, "fit-paths"))
+        if not bad_paths:
+            chk.ok("fit-test", fi.where, f"{len(cif)} mmCIF paths: False exactly when a needed column is missing or a limit is exceeded")
+        pdbp = [(d, rv) for d, rv, st in results if fmt_of(d) == "PDB"]
+        chk.expect(bool(pdbp) and all(rv is True for d, rv in pdbp), "fit-test", fi.where, "PDB-format tables fit", "a PDB-format table is not reported as fitting", K(fi, "returns-pdb"))
     # limits agree with the writer's widths
     lay = {}
     try:
@@ -66,6 +119,12 @@ def check_can_write(chk) -> None:
         w = {k: b - a for k, (a, b) in lay.items()}
         ok = 10 ** w.get("serial", 0) - 1 == c["max_serial"] and 10 ** w.get("resSeq", 0) - 1 == c["max_resseq"] and w.get("chainID") == c["max_chain_len"]
         chk.expect(ok, "limits-vs-widths", fi.where, "limits 99999 / 9999 / 1 are the capacities of the writer's serial, resSeq and chain fields", "the limits of the fit test no longer match the field widths of the PDB writer", K(fi, "widths"), found=w)
+
+
+def _alias(node: ast.AST, scope: ast.AST) -> ast.AST:
+    from checks.c08 import _resolve_aliases
+
+    return _resolve_aliases(node, scope, keep=("last_chain_id_for_serial", "current_serial"))
 
 
 class _Quiet:
@@ -113,26 +172,45 @@ def check_fit(chk) -> None:
     ok = isinstance(alpha, list) and len(alpha) == c["max_chains"] and len(set(alpha)) == len(alpha) and all(isinstance(x, str) and len(x) == 1 for x in alpha)
     mc = astq.first_assign(fi.node, "max_pdb_chains")
     chk.expect(ok and mc is not None and norm(mc) == "len(available_chain_ids)", "chain-alphabet", fi.where, "62 distinct one-character chain ids; the chain limit is the alphabet size", "the chain alphabet is not 62 distinct single characters with max_pdb_chains = its length", K(fi, "alphabet"), found=len(alpha) if isinstance(alpha, list) else None)
+    from sa.defuse import Inliner
+
+    inl = Inliner(fi.node)
     checks = {}
     for s in fi.node.body:
         if isinstance(s, ast.If) and s.body and isinstance(s.body[-1], ast.Raise) and isinstance(s.test, ast.Compare):
-            checks[norm(s.test)] = True
-    want_checks = ["total_atoms + num_chains > max_pdb_serial", "num_chains > max_pdb_chains", "max_residues_per_chain > max_pdb_residue"]
-    missing = [w for w in want_checks if w not in checks]
-    chk.expect(not missing, "feasibility", fi.where, "refuses when atoms + TER lines, chains or residues per chain exceed the limits", f"feasibility check(s) missing or altered: {missing}", K(fi, "feasibility"), found=sorted(checks))
+            checks[norm(inl.inline(s.test, s, stop=("total_atoms", "num_chains", "max_pdb_serial", "max_pdb_chains", "max_residues_per_chain", "max_pdb_residue")))] = True
+    want_checks = {"total_atoms + num_chains > max_pdb_serial": ["num_chains + total_atoms > max_pdb_serial"], "num_chains > max_pdb_chains": [], "max_residues_per_chain > max_pdb_residue": []}
+    missing = [w for w, alts in want_checks.items() if w not in checks and not any(a in checks for a in alts)]
+    weaker = [t for t in checks if t in ("total_atoms > max_pdb_serial", "total_atoms + num_chains >= max_pdb_serial")]
+    if weaker:
+        chk.violation("feasibility", fi.where, f"the serial feasibility check is `{weaker[0]}`: the TER line of every chain also takes a serial number, so atoms + chains must not exceed the limit", K(fi, "feasibility"), found=sorted(checks))
+    else:
+        chk.expect(not missing, "feasibility-form", fi.where, "refuses when atoms + TER lines, chains or residues per chain exceed the limits", f"feasibility check(s) missing or altered: {missing}", K(fi, "feasibility"), found=sorted(checks))
+        if not missing:
+            chk.ok("feasibility", fi.where, "refuses when atoms + TER lines, chains or residues per chain exceed the limits")
     defs = {nm: norm(astq.first_assign(fi.node, nm)) if astq.first_assign(fi.node, nm) is not None else None for nm in ("unique_chains", "num_chains", "total_atoms")}
     chk.expect(defs == {"unique_chains": "df[chain_col].unique()", "num_chains": "len(unique_chains)", "total_atoms": "len(df)"}, "feasibility", fi.where, "counts: chains = distinct chain ids (order of appearance), atoms = rows", "the counted quantities changed", K(fi, "counts"), found=defs)
     rc = astq.first_assign(fi.node, "residue_counts")
     ok = rc is not None and flat(rc) == flat("check_df.groupby('chain').apply(lambda x: x[['resSeq', 'iCode']].drop_duplicates().shape[0])")
-    mr = astq.first_assign(fi.node, "max_residues_per_chain")
-    ok = ok and mr is not None and norm(mr) == "residue_counts.max() if not residue_counts.empty else 0"
+    use = [s2 for s2 in fi.node.body if isinstance(s2, ast.If) and "max_residues_per_chain" in norm(s2.test)]
+    mr = inl.reaching("max_residues_per_chain", use[0]) if use else None
+    ok = ok and mr is not None and norm(mr) in ("residue_counts.max() if not residue_counts.empty else 0", "0 if residue_counts.empty else residue_counts.max()")
     chk.expect(ok, "feasibility", fi.where, "residues per chain = distinct (number, insertion code) per chain", "residues per chain are not counted as distinct (resSeq, iCode) per chain", K(fi, "residue-count"))
     # index after the `> 62` guard
     cm = astq.first_assign(fi.node, "chain_mapping")
-    ok = cm is not None and flat(cm) == flat("{orig_chain: available_chain_ids[i] for i, orig_chain in enumerate(unique_chains)}")
-    guard = [s for s in fi.node.body if isinstance(s, ast.If) and norm(s.test) == "num_chains > max_pdb_chains"]
+    guard = [s for s in fi.node.body if isinstance(s, ast.If) and norm(inl.inline(s.test, s, stop=("num_chains", "max_pdb_chains"))) == "num_chains > max_pdb_chains"]
+    # the alphabet must not be consumed: a pool shared between calls hands out different ids on the second call
+    alpha_def = astq.first_assign(fi.node, "available_chain_ids")
+    shared = isinstance(alpha_def, ast.Name) and alpha_def.id in repo.module(M).consts
+    muts = [c2 for c2 in ast.walk(fi.node) if isinstance(c2, ast.Call) and isinstance(c2.func, ast.Attribute) and norm(c2.func.value) == "available_chain_ids" and c2.func.attr in ("pop", "remove", "clear", "insert", "append", "extend", "sort", "reverse")]
+    muts += [d2 for d2 in ast.walk(fi.node) if isinstance(d2, ast.Delete) and any("available_chain_ids" in norm(t2) for t2 in d2.targets)]
+    if muts and shared:
+        chk.violation("chain-alphabet", fi.site(muts[0]), f"`{norm(muts[0])[:60]}` consumes `{alpha_def.id}`, a module-level list shared by every call: the second table gets other chain ids (and the pool eventually runs dry with IndexError)", K(fi, "alphabet-mutated"))
+    cm_forms = (flat("{orig_chain: available_chain_ids[i] for i, orig_chain in enumerate(unique_chains)}"), flat("dict(zip(unique_chains, available_chain_ids))"), flat("{orig_chain: new_chain for orig_chain, new_chain in zip(unique_chains, available_chain_ids)}"))
+    ok = cm is not None and flat(cm) in cm_forms
     ok = ok and guard and cm.lineno > guard[0].lineno
-    chk.expect(ok, "chain-map", fi.where, "chains are renamed by enumerating the distinct ids into the alphabet (one-to-one), after the size check", "the chain map is not {id: alphabet[i] for i, id in enumerate(unique ids)} built after the size check", K(fi, "chain-map"))
+    if not (muts and shared):
+        chk.expect(ok, "chain-map", fi.where, "chains are renamed by pairing the distinct ids with the alphabet in order (one-to-one), after the size check", "the chain map is not {id: alphabet[i] for i, id in enumerate(unique ids)} built after the size check", K(fi, "chain-map"))
     ap = [s for s in fi.node.body if isinstance(s, ast.Assign) and norm(s) == "df_fitted[chain_col] = df_fitted[chain_col].map(chain_mapping)"]
     chk.expect(len(ap) == 1, "chain-map", fi.where, "the map is applied to every row", "the chain map is not applied to the whole chain column", K(fi, "chain-apply"))
     # residue renumbering loop: closed body
@@ -150,6 +228,13 @@ def check_fit(chk) -> None:
             flat("df_fitted.loc[group.index, new_resseq_col] = res_indices.map(residue_mapping)"),
         ]
         ok = body == want
+    if len(rl) == 1:
+        skips = [n for n in ast.walk(rl[0]) if isinstance(n, (ast.Continue, ast.Break))]
+        clears = [s2 for s2 in fi.node.body if isinstance(s2, ast.Assign) and norm(s2) == "df_fitted[icode_col] = None" and s2.lineno > rl[0].lineno]
+        if skips and clears:
+            chk.violation("residue-map-skip", fi.site(skips[0]), "a chain can leave the renumbering loop early and keep its own residue numbers, while the insertion codes are cleared for every chain after the loop: residues 10 and 10A of such a chain collapse into one", K(fi, "residue-skip"))
+        else:
+            chk.ok("residue-map-skip", fi.site(rl[0]), "no chain bypasses the renumbering")
     chk.expect(ok, "residue-map", fi.site(rl[0]) if rl else fi.where, "every chain is renumbered 1..n over its distinct (number, insertion code) in order of appearance, for all of its rows", "the residue renumbering loop changed: every chain must map distinct (resSeq, iCode) to 1..n and apply it to all rows (a skipped chain collides with the cleared insertion codes)", K(fi, "residue-map"), found=found)
     after = [norm(s) for s in fi.node.body if isinstance(s, ast.Assign) and norm(s.targets[0]) in ("df_fitted[resseq_col]", "df_fitted[icode_col]")]
     chk.expect(after[:2] == ["df_fitted[resseq_col] = df_fitted[new_resseq_col]", "df_fitted[icode_col] = None"], "residue-map", fi.where, "new numbers replace the old ones and insertion codes are cleared together", "new residue numbers / cleared insertion codes are not installed together after the loop", K(fi, "residue-install"), found=after)
@@ -160,19 +245,75 @@ def check_fit(chk) -> None:
     chk.expect(ok and uses_guarded, "column-guard", fi.where, "the optional insertion-code column is tested in the feasibility check and created on the copy before it is indexed", "icode_col is indexed without being tested/created: KeyError for tables without the optional column", K(fi, "icode-guard"))
     # serial renumbering
     sl = [l for l in fi.node.body if isinstance(l, ast.For) and norm(l.iter) == "df_fitted.iterrows()"]
-    ok = False
-    if len(sl) == 1:
-        t = [flat(s) for s in sl[0].body]
-        ok = t == [
-            flat("current_chain_id = row[chain_col]"),
-            flat("if last_chain_id_for_serial is not None and current_chain_id != last_chain_id_for_serial:\n    current_serial += 1"),
-            flat("current_serial += 1"),
-            flat("if current_serial > max_pdb_serial:\n    raise ValueError('Serial number exceeded PDB limit during renumbering.')"),
-            flat("df_fitted.loc[index, new_serial_col] = current_serial"),
-            flat("last_chain_id_for_serial = current_chain_id"),
-        ]
     srt = [s for s in fi.node.body if isinstance(s, ast.Expr) and norm(s.value) == "df_fitted.sort_index(inplace=True)"]
-    chk.expect(ok and len(srt) == 1 and srt[0].lineno < sl[0].lineno, "serial-renumber", fi.where, "serials run 1,2,.. in original row order, leaving one number for the TER of every chain change", "serial renumbering changed (row order, +1 per atom, +1 per chain change, limit check)", K(fi, "serial"))
+    if len(sl) != 1:
+        chk.error("serial-renumber", fi.where, "serial renumbering loop over df_fitted.iterrows() not found")
+    else:
+        from sa import paths as PT
+
+        bad = []
+        npaths = 0
+        for events, exit_ in PT.paths(sl[0].body):
+            if exit_ == "raise":
+                continue
+            npaths += 1
+            known = {}
+            for ev in events:
+                if ev[0] == "test":
+                    t = norm(_alias(ev[3], sl[0]))
+                    if t in ("last_chain_id_for_serial is not None",):
+                        known["has_last"] = ev[2]
+                    elif t in ("last_chain_id_for_serial is None",):
+                        known["has_last"] = not ev[2]
+                    elif t in ("row[chain_col] != last_chain_id_for_serial", "last_chain_id_for_serial != row[chain_col]"):
+                        known["differs"] = ev[2]
+                    elif t in ("row[chain_col] == last_chain_id_for_serial", "last_chain_id_for_serial == row[chain_col]"):
+                        known["differs"] = not ev[2]
+                    elif t == "current_serial > max_pdb_serial":
+                        pass
+                    else:
+                        known.setdefault("unknown", []).append(t)
+            if "unknown" in known:
+                bad.append(("error", f"condition `{known['unknown'][0][:60]}` not understood"))
+                continue
+            delta = 0
+            stored_at = None
+            ok_eval = True
+            for k, ev in enumerate(events):
+                if ev[0] != "stmt":
+                    continue
+                st = ev[1]
+                if isinstance(st, ast.AugAssign) and norm(st.target) == "current_serial" and isinstance(st.op, ast.Add):
+                    v = f.try_fold(st.value)
+                    if not isinstance(v, int):
+                        ok_eval = False
+                    else:
+                        delta += v
+                        if stored_at is not None:
+                            bad.append(("serial-renumber", "the serial is stored before it is incremented"))
+                elif isinstance(st, ast.Assign) and norm(st.targets[0]) == "df_fitted.loc[index, new_serial_col]" and norm(st.value) == "current_serial":
+                    stored_at = k
+            if not ok_eval:
+                bad.append(("error", "increment of current_serial does not fold"))
+                continue
+            changed = known.get("has_last") is True and known.get("differs") is True
+            want_delta = 2 if changed else 1
+            if delta != want_delta:
+                bad.append(("serial-renumber", f"on the path where the chain {'changes' if changed else 'does not change'} the serial advances by {delta}, expected {want_delta} (one per atom plus one for the TER line at a chain change)"))
+            if stored_at is None:
+                bad.append(("serial-renumber", "a row does not get its new serial"))
+        errs = [m for r, m in bad if r == "error"]
+        viol = [m for r, m in bad if r != "error"]
+        if errs:
+            chk.error("serial-renumber", fi.site(sl[0]), errs[0])
+        elif viol:
+            chk.violation("serial-renumber", fi.site(sl[0]), viol[0], K(fi, "serial"))
+        else:
+            chk.ok("serial-renumber", fi.site(sl[0]), f"{npaths} paths: serials run 1,2,.. in row order, leaving one number for the TER of every chain change")
+        lim = [r for r in ast.walk(sl[0]) if isinstance(r, ast.Raise)]
+        chk.expect(bool(lim) and len(srt) == 1 and srt[0].lineno < sl[0].lineno, "serial-renumber-form", fi.where, "rows are renumbered in original row order with a limit safeguard", "serial renumbering lost its row-order sort or limit safeguard", K(fi, "serial-form"))
+        upd = [s2 for s2 in sl[0].body if norm(s2) in ("last_chain_id_for_serial = current_chain_id", "last_chain_id_for_serial = row[chain_col]")]
+        chk.expect(len(upd) == 1 and sl[0].body[-1] is upd[0], "serial-renumber-form", fi.site(sl[0]), "the chain of the row just numbered is remembered", "the last chain id is not updated at the end of every round", K(fi, "serial-last"))
     # frame condition on column stores
     allowed_vars = {"chain_col", "new_resseq_col", "resseq_col", "icode_col", "new_serial_col", "serial_col"}
     n_st = 0
@@ -258,9 +399,10 @@ def run(chk) -> None:
     )
     chk.trusted = ["CPython ast", "pandas semantics (groupby order, map, drop_duplicates, dtype coercion)"]
     chk.assumptions = ["everything pandas does at run time is outside the decision: the behavioural claim as a whole is not decided"]
+    chk.robust |= {"fit-test", "feasibility", "chain-alphabet", "residue-map-skip", "serial-renumber", "frame-condition", "input-untouched", "limits", "limits-vs-widths", "only-valueerror", "rename-injective", "rename-coverage", "dtype-typestate"}
     check_can_write(chk)
     check_fit(chk)
-    for rule, n in (("fit-test", 4), ("feasibility", 3), ("residue-map", 2), ("chain-map", 2), ("rename-injective", 3), ("rename-coverage", 1), ("dtype-typestate", 3), ("frame-condition", 2)):
+    for rule, n in (("fit-test", 4), ("feasibility", 1), ("residue-map", 2), ("chain-map", 2), ("rename-injective", 3), ("rename-coverage", 1), ("dtype-typestate", 3), ("frame-condition", 2)):
         chk.floor(rule, n)
 
 
